@@ -1,4 +1,4 @@
-\* behaviour generation from the as-coded model (simulation mode)
+\* behaviour generation: one channel, honest traffic, cleans, and replays of every message that was ever genuine
 CONSTANTS
   Chains = {"A","B","C"}
   Names = {"A","B","C","Z"}
@@ -15,8 +15,8 @@ CONSTANTS
   F_RELAY_DST_ERRACK = FALSE
   Links <- Links3
   RuleSets <- RuleSetsGen
-  Senders = {"A","C"}
-  Dests = {"A","C"}
+  Senders = {"A"}
+  Dests = {"C"}
   UserRelays = {"","B"}
   UserPorts = {"mock"}
   UserData = {"d1","d2"}
@@ -26,7 +26,7 @@ CONSTANTS
   ExportOn = FALSE
   LOG = TRUE
   SimDepth = 40
-  SimMode = "mixed"
+  SimMode = "replay"
 INIT Init
 NEXT NextSim
 INVARIANT PrintBehaviour
